@@ -186,7 +186,7 @@ def jwtValidate (now : Int) (t : Tok) : List String :=
 
 /-- the `errors.Is` cascade after `jwt.ParseWithClaims` (generated) -/
 def mapJwtErrors (errs : List String) : String :=
-  match jwtErrorMap.find? (fun p => (p.1.splitOn "|").any (fun n => errs.contains n)) with
+  match jwtErrorMap.find? (fun p => p.1.any (fun n => errs.contains n)) with
   | some p => p.2
   | none => jwtErrorDefault
 
